@@ -80,7 +80,7 @@ func buildResp(shape int, id uint64, method string, callID int, seq int) *Rpc {
 	}
 	okSt := &goatorepo.ResponseStatus{Code: 0, Message: "OK"}
 	errSt := &goatorepo.ResponseStatus{Code: errCode, Message: errMsg}
-	badMD := []*goatorepo.KeyValue{{Key: "bad-bin", Value: "!!!not base64!!!"}}
+	badMD := []*goatorepo.KeyValue{{Key: []string{"bad-bin", "Bad-bin", "bad-Bin", "BAD-BIN"}[(int(id)+seq)%4], Value: "!!!not base64!!!"}}
 	r := &Rpc{Id: id}
 	switch shape {
 	case RNoHeader:
@@ -376,7 +376,7 @@ func execRawSrv(e *Env, pp any) {
 			}
 			if rr.Shape == RGarbageBody {
 				histMu.Lock()
-				sent[callID] = append(sent[callID], nil) // may decode to anything / fail
+				sent[callID] = append(sent[callID], nil) // never decodes
 				histMu.Unlock()
 			}
 			e.Note("shape." + rShapeNames[rr.Shape%numRShapes])
@@ -615,14 +615,14 @@ func checkHostileClient(e *Env, sim *Sim, p *RawSrvParams, sent map[int][][]byte
 		if c.Kind != KUnary && r.CFinalSet && r.CFinal == io.EOF && !okEnd[id] {
 			e.Violate(prop, "fabricated-end-of-stream", site, "call %d: RecvMsg returned io.EOF although no envelope addressed to it ended the stream successfully (the connection was closed with %v)", id, InjectedErr(p.CloseErr))
 		}
-		if garbage {
-			continue
-		}
+		// (a garbage body - an invalid wire type, which no message type decodes - is
+		// carried by an envelope but is not data: it matches nothing a caller received)
+		_ = garbage
 		j := 0
 		for i, m := range got {
 			found := false
 			for j < len(mine) {
-				if bytes.Equal(mine[j], m) {
+				if mine[j] != nil && bytes.Equal(mine[j], m) {
 					found = true
 					j++
 					break
